@@ -2358,15 +2358,22 @@ func tokenTypes() []simplexer.TokenType{
 		t(LT, methodOps["lt"]),
 		t(ADD_CHAIN, `[&~=]`),
 		t(MAIN_CHAIN, `[\.@$]`),
-		t(IF, `if`),
-		t(ELSE, `else`),
-		t(RETURN, `return`),
-		t(YIELD, `yield`),
-		t(RAISE, `raise`),
-		t(DEFER, `defer`),
+		// NOTE: keywords (`if`, `else`, `return`, `yield`, `raise`, `defer`) are
+		// lexed as IDENT and converted in Lex(), otherwise idents starting with
+		// a keyword (like `iffy` or `returned`) are divided unexpectedly
 		t(IDENT, ident),
 		t(PRIVATE_IDENT, fmt.Sprintf(`_+(%s)?`, ident)),
 	}
+}
+
+// keywordTokenIDs is a table of keywords, which have the same form as idents.
+var keywordTokenIDs = map[string]simplexer.TokenID{
+	"if":     IF,
+	"else":   ELSE,
+	"return": RETURN,
+	"yield":  YIELD,
+	"raise":  RAISE,
+	"defer":  DEFER,
 }
 
 func embeddedStrTokenTypes() []simplexer.TokenType {
@@ -2428,6 +2435,14 @@ func (l *Lexer) Lex(lval *yySymType) int {
 		l.removeEmbeddedStrTokenTypes()
 	}
 
+	tokenID := token.Type.GetID()
+	if tokenID == IDENT {
+		// NOTE: ident which is exactly same as a keyword is the keyword
+		if keywordID, ok := keywordTokenIDs[token.Literal]; ok {
+			tokenID = keywordID
+		}
+	}
+
 	lval.token = token
 	newSource := l.convertSourceInfo(token)
 	// NOTE: fix Line string because Line refers next line
@@ -2439,7 +2454,7 @@ func (l *Lexer) Lex(lval *yySymType) int {
 	}
 
 	l.Source = newSource
-	return int(token.Type.GetID())
+	return int(tokenID)
 }
 
 func (l *Lexer) unknownTokenErrMsg(err *simplexer.UnknownTokenError) string {
